@@ -210,6 +210,60 @@ Theorem C06_sql_append_all_once : forall bprog db0 cfg k,
 Proof. exact gen_sql_append_all_once. Qed.
 Print Assumptions C06_sql_append_all_once.
 
+(** ** Blocking and refusal: what the forced schedules of the harness show
+
+    sync.RWMutex: while a writer (any memKV method but get / has / walks) is
+    inside its critical section - e.g. a Mutate inside the user's function -
+    every step of the system is a step of that writer: the other goroutines'
+    Lock / RLock is not enabled, they block.  While a reader (a walk inside
+    its callback) is inside, no writer can enter. *)
+Theorem C06_lock_exclusion :
+  forall (S L R : Type) (prog : tid -> list (Sched.call S L R)) (s0 : S) (cfg : config S L R),
+  (forall j c, In c (prog j) -> call_mode S L R c <> MU) ->
+  reachable S L R (init S L R prog s0) cfg ->
+  forall i,
+    (holds S L R MW (ths S L R cfg i) ->
+     forall j, j <> i -> ~ holds S L R MW (ths S L R cfg j) /\ ~ holds S L R MR (ths S L R cfg j)) /\
+    (holds S L R MR (ths S L R cfg i) -> forall j, ~ holds S L R MW (ths S L R cfg j)).
+Proof. exact lock_exclusion. Qed.
+Print Assumptions C06_lock_exclusion.
+
+Theorem C06_mem_writer_runs_alone : forall bprog m0 cfg cfg' i,
+  mreachable (minit (mem_prog bprog) m0) cfg ->
+  mholds MW (mths cfg i) -> Sched.step table loc result cfg cfg' ->
+  forall j, j <> i -> mths cfg' j = mths cfg j.
+Proof.
+  exact (fun bprog m0 cfg cfg' i =>
+           writer_runs_alone table loc result (mem_prog bprog) m0 cfg cfg' i (mem_prog_locked bprog)).
+Qed.
+Print Assumptions C06_mem_writer_runs_alone.
+
+Theorem C06_mem_reader_blocks_writers : forall bprog m0 cfg cfg' i,
+  mreachable (minit (mem_prog bprog) m0) cfg ->
+  mholds MR (mths cfg i) -> Sched.step table loc result cfg cfg' ->
+  forall j, ~ mholds MW (mths cfg' j).
+Proof.
+  exact (fun bprog m0 cfg cfg' i =>
+           reader_blocks_writers table loc result (mem_prog bprog) m0 cfg cfg' i (mem_prog_locked bprog)).
+Qed.
+Print Assumptions C06_mem_reader_blocks_writers.
+
+(** sqlite: while a connection is inside a mutate transaction the committed
+    database changes only by that transaction's own commit - a write another
+    connection attempts in the meantime can only be refused; and at most one
+    connection holds a pending write. *)
+Theorem C06_sql_tx_excludes_writes : forall cfg cfg' j,
+  qstep gen_sqlite_methods cfg cfg' -> in_tx (qths cfg j) ->
+  qdb cfg' = qdb cfg \/
+  (exists k f img todo, qths cfg j = QWritten k f img todo /\ qdb cfg' = img).
+Proof. exact gen_sql_tx_excludes_writes. Qed.
+Print Assumptions C06_sql_tx_excludes_writes.
+
+Theorem C06_sql_reserved_unique : forall bprog db0 cfg,
+  qreachable gen_sqlite_methods (qinit bprog db0) cfg -> reserved_unique cfg.
+Proof. exact gen_sql_reserved_unique. Qed.
+Print Assumptions C06_sql_reserved_unique.
+
 (** ** The history checker used on recorded runs is sound *)
 Theorem C06_lin_sound : forall fuel pending s final,
   lin fuel pending s final = true ->
